@@ -42,6 +42,7 @@ class Interp:
         self.attr = dict(attr_degs or {})
         self.memo = {}
         self.violations: list[Violation] = []
+        self.branch_conflicts = []  # (If node, variable, degree in body, degree in orelse): ground but different
         self.builtin_norm = builtin_norm
         self._stack = []
 
@@ -202,6 +203,8 @@ class Interp:
             name = e.func.id
         elif isinstance(e.func, ast.Attribute) and isinstance(e.func.value, ast.Name) and e.func.value.id == "self" and e.func.attr in self.functions:
             name = e.func.attr
+        if name is None and f in self.attr:
+            return self.attr[f]  # a callable attribute with a declared degree (glue lambda): self.A_IJ2(t, q)
         if name is not None:
             fn = self.functions[name]
             params = [a.arg for a in fn.args.args]
@@ -314,6 +317,8 @@ class Interp:
                     for k in keys:
                         vals = [x.get(k, Z) for x in src]
                         env[k] = vals[0] if len(vals) == 1 else self.join(vals[0], vals[1])
+                        if len(vals) == 2 and is_ground(vals[0]) and is_ground(vals[1]) and vals[0] != vals[1]:
+                            self.branch_conflicts.append((s, k, vals[0], vals[1]))
             elif isinstance(s, (ast.For, ast.While)):
                 if isinstance(s, ast.For):
                     self.assign(s.target, None, env, deg=self.iter_deg(s.iter, env))
